@@ -296,7 +296,7 @@ func main() {
 	}
 	rng := vkit.Rand("c09")
 	cases := seeds()
-	for i := 0; i < vkit.N(60, 1500); i++ {
+	for i := 0; i < vkit.N(200, 2500); i++ {
 		cases = append(cases, gen(rng, i))
 	}
 	for _, c := range cases {
